@@ -166,6 +166,23 @@ CHECKS['C09'] = ('DESIGN.md#C09',
     'F7 (Ellipse geometry overrides persist) is excluded by signature. '
     'Ellipse fits are few in the quick tier (cost).')
 
+CHECKS['C11'] = ('DESIGN.md#C11',
+    'Hypothesis-generated images/box sizes/masks/estimators/interpolators/'
+    'filters vs. an independent numpy mesh model, structural assertions and '
+    'metamorphic relations (mask-blindness, constant image, +c, *2^n); half '
+    'of the shards with the bottleneck accelerator disabled',
+    'Generated-input and configuration search: every kept mesh value equals '
+    'the reference estimator of the sigma-clipped unmasked pixels of its '
+    '(possibly padded) box, npixels_mesh equals the counts, excluded meshes '
+    'are finite and inside the hull, filtered meshes equal the windowed '
+    'median of the oracle mesh, maps are full-size/finite/fill_value on the '
+    'coverage mask/within the mesh range for zoom, unchanged bit-for-bit by '
+    'garbage under masks, exact for constant images and equivariant under '
+    'dyadic shifts and scalings. Held on N cases; not a proof.',
+    'Trusted: numpy, astropy.stats reference functions. Masks are boolean '
+    'arrays (documented type). Boxes exactly at the exclusion threshold are '
+    'ambiguous.')
+
 NOT_APPLICABLE = []
 
 
